@@ -272,6 +272,14 @@ def Solver.run (sv : Solver) (pop : List Nat → Option (Nat × List Nat)) (fuel
 def Solver.runEK (sv : Solver) (fuel : Nat) : Option Solver := sv.run popBack fuel
 def Solver.runFF (sv : Solver) (fuel : Nat) : Option Solver := sv.run popFront fuel
 
+/-- `k` further calls of `run()` on the same object: `Solver.run` starts from the stored flow counter
+    (`self.max_flow += path_flow`), so a re-run of EdmondsKarp / FordFulkerson is `run` itself -/
+def Solver.runN (pop : List Nat → Option (Nat × List Nat)) (fuel : Nat) : Nat → Solver → Option Solver
+  | 0, sv => some sv
+  | k + 1, sv => match sv.run pop fuel with
+    | none => none
+    | some sv' => Solver.runN pop fuel k sv'
+
 def maxFlowOut (finished : Bool) (flow : Int) : Out Int := if !finished then .err else .ok flow
 
 def Solver.maxFlow? (sv : Solver) : Out Int := maxFlowOut sv.finished sv.maxFlow
